@@ -46,7 +46,8 @@ def explore(tier, seed):
                 # "replacement": every non-empty input is malformed
                 jobs.append(("malformed", label, entry, b"a ;\n", None, n)); n += 1
                 continue
-            configured = label if label not in ("UTF-16LE", "UTF-16BE") else None
+            # (UTF-16LE / UTF-16BE can be configured like any other encoding: without a BOM they decide reading and writing)
+            configured = label
             for text in texts_for(entry):
                 if configured:
                     for transport in ("file", "stdin"):
@@ -60,8 +61,11 @@ def explore(tier, seed):
                         jobs.append(("roundtrip", label, entry, text, (bom, transport), n)); n += 1
             for hx in entry["malformed"]:
                 jobs.append(("malformed", label, entry, b"a ; //" + bytes.fromhex(hx) + b"\n", hx, n)); n += 1
+                if label in ("UTF-16LE", "UTF-16BE"):
+                    # configured, no BOM
+                    jobs.append(("malformed", label, entry, b"", "nobom:" + hx, n)); n += 1
             # a rejected file followed by a valid one in the same invocation, on one worker (one read buffer)
-            if entry["malformed"] and configured:
+            if entry["malformed"] and label not in ("UTF-16LE", "UTF-16BE"):
                 jobs.append(("batch", label, entry, texts_for(entry)[-1], entry["malformed"][0], n)); n += 1
         jobs.append(("roundtrip", "native", {"label": "native", "codec": "utf-8", "chars": list("é日")}, "é  :=  '日' ;", (None, "file"), n)); n += 1
         # characters that look like encoding artefacts but are ordinary text: U+FEFF as the first character of the text
@@ -94,11 +98,13 @@ def explore(tier, seed):
             kind, label, entry, payload, extra, k = job
             res = []
             f = os.path.join(sb.dir, f"u{k}.pas")
-            args_enc = ["-Cencoding=" + label] if label not in ("UTF-16LE", "UTF-16BE") else []
+            args_enc = ["-Cencoding=" + label]
             if kind == "malformed":
                 data = payload
                 if label in ("UTF-16LE", "UTF-16BE"):
                     bom = b"\xff\xfe" if label == "UTF-16LE" else b"\xfe\xff"
+                    if extra.startswith("nobom:"):
+                        bom, extra = b"", extra[6:]
                     data = bom + "a ;".encode("utf-16-le" if label == "UTF-16LE" else "utf-16-be") + bytes.fromhex(extra)
                 open(f, "wb").write(data)
                 os.utime(f, (OLD, OLD))
@@ -230,7 +236,7 @@ def replay(case):
     table = _json.load(open(os.path.join(ROOT, "corpus", "encodings.json")))
     label = case["encoding"]
     data = bytes.fromhex(case["input_hex"])
-    args_enc = ["-Cencoding=" + label] if label not in ("UTF-16LE", "UTF-16BE") else []
+    args_enc = ["-Cencoding=" + label] if label != "native" else []
     with cli.Sandbox("c17-replay") as sb:
         if case["kind"] in ("batch", "raw", "split"):
             print("REPLAY: batch cases are re-run by the check itself")
